@@ -324,3 +324,70 @@ def facilities_expected(plan, cfg, mask):
                     'USES-USERS-PUMP ' + ('na' if not has_mts else 'yes')]
     out.append('USER-LOCATOR-UNCHANGED yes')
     return out
+
+
+# ---------------------------------------------------------------- C04: multi-client selector operation sequences
+
+def selector_driver(plan, cfg, shell_header, clients):
+    """driver reading operations from stdin:  claim <cid> <reply int> | release <cid> | other <cid> <event> | out <event>
+    after each operation it prints the records produced and the value returned to the client."""
+    shell_name = shell_header[:-3]
+    q = shell_qname(plan, shell_name)
+    sf = '::' + '::'.join((cfg.get('sf_prefix') or []) + ['Dzn'])
+    create = cfg.get('fac', 'create') == 'create'
+    mcp = next(p for p in plan['ports'] if p['exposed'] and p['exposed']['mc'])
+    mc = mcp['exposed']['mc']
+    itf = MM.cpp_fqn(mcp['itf']['fqn'])
+    L = [f'#include "{shell_header}"', DRIVER_PRELUDE, '#include <map>', '#include <sstream>', 'int main()', '{',
+         '    dzn::locator loc; dzn::pump pump; dzn::runtime rt; dzn::meta parent;']
+    if not create:
+        L.append('    loc.set(pump).set(rt);')
+    L.append(f'    {sf}::ILog log;')
+    L.append(f'    {q} shell(loc, log, "inst");')
+    L.append(f'    auto* enc = static_cast<{enc_qname(plan)}*>(verif::the_component());')
+    L.append(f'    std::map<std::string, {itf}*> cl;')
+    for cid in clients:
+        L.append(f'    cl["{cid}"] = &shell.ProvidesMultiClient{cap(mcp["name"])}("{cid}").port;')
+        for e in mcp['itf']['events']:
+            if e['out']:
+                L.append(f'    cl["{cid}"]->out.{e["name"]} = {MM.handler(mcp["name"] + "@" + cid, e, "USER")};')
+    # bind the user side of all other exposed ports so that FinalConstruct succeeds
+    for p in plan['ports']:
+        if not p['exposed'] or p['exposed']['mc']:
+            continue
+        pre = 'Requires' if p['requires'] else 'Provides'
+        L.append(f'    auto& {p["name"]}_u = shell.{pre}{cap(p["name"])}().port;')
+        for e in p['itf']['events']:
+            if (not p['requires'] and e['out']) or (p['requires'] and not e['out']):
+                lbl = 'out' if e['out'] else 'in'
+                L.append(f'    {p["name"]}_u.{lbl}.{e["name"]} = {MM.handler(p["name"], e, "USER")};')
+    L.append('    try { shell.FinalConstruct(&parent); } catch (const std::exception& e) { std::cout << "FINALCONSTRUCT-FAILED " << e.what() << "\\n"; return 0; }')
+    L.append('    verif::mark() = verif::trace().size();')
+    L.append('    std::string line;')
+    L.append('    while (std::getline(std::cin, line)) {')
+    L.append('        std::istringstream is(line); std::string op, a, b; is >> op >> a >> b;')
+    L.append('        std::cout << "OP " << line << "\\n";')
+    L.append('        try {')
+    # in-events by name
+    def in_call(e, target):
+        return '{ ' + arg_decls(e, 50) + ' ' + call_expr(target, e, 'in') + ' verif::after_call(ret, ' + show_outs(e) + '); }'
+    ins = [e for e in mcp['itf']['events'] if not e['out']]
+    outs = [e for e in mcp['itf']['events'] if e['out']]
+    L.append(f'        if (op == "claim") {{ verif::replies()["{mcp["name"]}.{mc["claim"]}"] = std::atoi(b.c_str()); ' +
+             in_call(next(e for e in ins if e['name'] == mc['claim']), '(*cl[a])') + ' }')
+    L.append('        else if (op == "release") ' + in_call(next(e for e in ins if e['name'] == mc['release']), '(*cl[a])'))
+    L.append('        else if (op == "other") {')
+    for e in ins:
+        if e['name'] not in (mc['claim'], mc['release']):
+            L.append(f'            if (b == "{e["name"]}") ' + in_call(e, '(*cl[a])'))
+    L.append('        }')
+    L.append('        else if (op == "out") {')
+    for e in outs:
+        L.append(f'            if (a == "{e["name"]}") {{ ' + arg_decls(e, 60) + f' enc->{mcp["name"]}.out.{e["name"]}({arg_list(e)}); verif::flush("REC"); }}')
+    L.append('        }')
+    L.append('        } catch (const std::exception& e) { verif::failed(e.what()); }')
+    L.append('        verif::drain();')
+    L.append('    }')
+    L.append('    return 0;')
+    L.append('}')
+    return '\n'.join(L) + '\n'
